@@ -28,7 +28,22 @@ class HTagSet(Tag):
     items: frozenset
 
 
+_SINGLETONS: dict = {}
+
+
 def make_tag(spec):
+    """Tag instances are per-process singletons per spec, like the module-level
+    metadata tags of real applications: the same instance ends up on many
+    graphs, in generated loopy kernels, in pickles, and carries whatever
+    per-object caches (hash, key digest) earlier uses left on it."""
+    key = repr(spec)
+    t = _SINGLETONS.get(key)
+    if t is None:
+        t = _SINGLETONS[key] = _make_tag(spec)
+    return t
+
+
+def _make_tag(spec):
     from pytato.tags import ImplStored, Named, PrefixNamed
     kind = spec[0]
     if kind == "stored":
